@@ -50,3 +50,5 @@ SPEC = {'id': 'C14',
 
 SPEC['rule'] += (' Added after the seeded-change rounds: ' +
     'Raw requests that announce a huge Content-Length (up to 2^62) with a short or no body; a client naming an unknown bridge while polls of the scripted flows wait (those polls must still be answered); two overlapping polls under one session id; a herd of 192 polls; one scripted flow is forced in-process through the real handlers (deterministic), the same flows run against the binary.')
+
+SPEC['thorough_passes'] = 6  # the thorough tier runs the whole harness under this many consecutive seeds
